@@ -1949,6 +1949,32 @@ def register_all(M):
                 "is_ascii_punctuation": [x for x in range(0x21, 0x7f) if not chr(x).isalnum()]}[name]
         return m_str_contains(it, [Str(sets), c], "str::contains::<char>")
 
+    U8_SETS = {"is_ascii": (0, 0x7f, None), "is_ascii_digit": (0x30, 0x39, None), "is_ascii_lowercase": (0x61, 0x7a, None), "is_ascii_uppercase": (0x41, 0x5a, None)}
+
+    @reg("u8::is_ascii", "u8::is_ascii_alphabetic", "u8::is_ascii_digit", "u8::is_ascii_alphanumeric", "u8::is_ascii_punctuation",
+         "u8::is_ascii_lowercase", "u8::is_ascii_uppercase", "u8::is_ascii_whitespace")
+    def m_u8_class(it, args, callee):
+        b = deref(args[0])
+        name = callee.strip().split("::")[-1]
+        members = {"is_ascii": list(range(0, 0x80)), "is_ascii_alphabetic": [x for x in range(0x80) if chr(x).isalpha()],
+                   "is_ascii_digit": list(range(0x30, 0x3a)), "is_ascii_alphanumeric": [x for x in range(0x80) if chr(x).isalnum()],
+                   "is_ascii_lowercase": list(range(0x61, 0x7b)), "is_ascii_uppercase": list(range(0x41, 0x5b)),
+                   "is_ascii_punctuation": [x for x in range(0x21, 0x7f) if not chr(x).isalnum()],
+                   "is_ascii_whitespace": [0x20, 0x09, 0x0a, 0x0c, 0x0d]}[name]
+        if not is_sym(b):
+            return b in members
+        return simp(z3.Or([bv(b, 8) == m for m in members]))
+
+    @reg("u8::to_ascii_lowercase", "u8::to_ascii_uppercase")
+    def m_u8_ascii_case(it, args, callee):
+        b = deref(args[0])
+        lower = callee.strip().split("::")[-1].startswith("to_ascii_lower")
+        lo, hi, d = (0x41, 0x5a, 32) if lower else (0x61, 0x7a, -32)
+        if not is_sym(b):
+            return b + d if lo <= b <= hi else b
+        x = bv(b, 8)
+        return simp(z3.If(z3.And(z3.UGE(x, lo), z3.ULE(x, hi)), x + d if d > 0 else x - (-d), x))
+
     @reg("char::to_ascii_lowercase", "char::to_ascii_uppercase")
     def m_char_ascii_case(it, args, callee):
         c = deref(args[0])
@@ -2659,7 +2685,7 @@ def register_all(M):
     def m_from_utf8_lossy(it, args, callee):
         # lossy decoding of arbitrary bytes: some text of at most as many characters (each any scalar value; U+FFFD among them)
         src = deref(args[0])
-        n = len(src.items) if hasattr(src, "items") else len(slice_of(src))
+        n = min(3, len(src.items) if hasattr(src, "items") else len(slice_of(src)))       # bound: at most three characters of text
         k = it.st.counter = getattr(it.st, "counter", 0) + 1
         return Agg("adt:Cow", 1, [SString([it.st.sym_char("lossy%d_%d" % (k, i)) for i in range(n)])])
 
